@@ -310,10 +310,34 @@ func genVal(r *gen.Rand) PVal {
 		}
 		return PVal{Kind: 'b', Bool: b, Text: t}
 	default:
-		s := genBytes(r, 0, 12, gen.Pick(r, []int{0, 20, 50}))
-		s = strings.NewReplacer("\n", "").Replace(s)
+		var s string
+		if r.Bool() {
+			s = genBsqString(r)
+		} else {
+			s = genBytes(r, 0, 12, gen.Pick(r, []int{0, 20, 50}))
+			s = strings.NewReplacer("\n", "").Replace(s)
+		}
 		return PVal{Kind: 's', Str: s, Text: "\"" + escStr(r, s, r.Chance(1, 3)) + "\""}
 	}
+}
+
+// genBsqString: string values (or raw quoted-string bodies) over an alphabet biased to runs of 1..6 backslashes next to
+// double quotes and at the end of the string.
+func genBsqString(r *gen.Rand) string {
+	var sb strings.Builder
+	for i, n := 0, r.Range(1, 6); i < n; i++ {
+		switch x := r.Intn(20); {
+		case x < 8:
+			sb.WriteString(strings.Repeat("\\", r.Range(1, 6)))
+		case x < 13:
+			sb.WriteByte('"')
+		case x < 15:
+			sb.WriteString(gen.Pick(r, []string{" ", ",", "="}))
+		default:
+			sb.WriteByte(plain[r.Intn(len(plain))])
+		}
+	}
+	return sb.String()
 }
 
 func genName(r *gen.Rand, first bool) string {
@@ -733,6 +757,20 @@ func caseMutated(r *gen.Rand, idx int) {
 	emit(&Case{I: idx, Class: "mutated", Mult: 1, In: hx(string(b)), Text: string(b), Err: isErr, Rows: rows, Nontrivial: true})
 }
 
+// caseRawString: a quoted string field whose body is raw text over the backslash/quote alphabet (any run lengths before
+// quotes and before the closing quote). Validity is not decided here: model and implementation must agree.
+func caseRawString(r *gen.Rand, idx int) {
+	text := "m " + genBytes(r, 1, 3, 0) + "=\"" + genBsqString(r) + "\""
+	if r.Bool() {
+		text += "," + genBytes(r, 1, 3, 0) + "=" + gen.Pick(r, []string{"1i", "2.5", "t", "\"z\""})
+	}
+	if r.Bool() {
+		text += " " + strconv.Itoa(r.Intn(100000))
+	}
+	rows, isErr := runImpl([]byte(text), 1)
+	emit(&Case{I: idx, Class: "rawstring", Mult: 1, In: hx(text), Text: text, Err: isErr, Rows: rows, Nontrivial: true})
+}
+
 // corpus entry: {"name":..., "text":..., "mult":1, "invalid":true|false, "sig":"C06-...", "ints":{"x":"9007199254740993"}}
 type corpusEntry struct {
 	Name    string            `json:"name"`
@@ -842,17 +880,22 @@ func main() {
 	}
 	r := gen.FromEnv(6)
 	for k := 0; k < n; k++ {
-		switch x := r.Intn(20); {
+		switch x := r.Intn(22); {
 		case x < 9:
 			caseValid(r, idx)
 		case x < 13:
 			caseBad(r, idx)
-		case x < 17:
+		case x < 16:
 			caseBatch(r, idx)
-		default:
+		case x < 18:
 			caseMutated(r, idx)
+		case x < 20:
+			caseRawString(r, idx)
+		default:
+			caseStream(r, idx)
 		}
 		idx++
 	}
+	idx = streamSweep(idx)
 	fmt.Printf("{\"done\":%d}\n", idx)
 }
